@@ -106,6 +106,13 @@ func (f *FileOutputHandler) Load(
 	tracker *worker.ProgressTracker,
 ) error {
 	absOutputPath := config.GetPathAbsoluteToWorkspaceRoot(filepath.Join(target.Label.Package, output.GetFile().GetPath()))
+	// Whatever sits at the output path that is not a regular file (a symlink, a directory) is replaced:
+	// hashing or writing through a symlink would compare and overwrite the file it points to
+	if info, err := os.Lstat(absOutputPath); err == nil && !info.Mode().IsRegular() {
+		if err := os.RemoveAll(absOutputPath); err != nil {
+			return err
+		}
+	}
 	existingHash, err := hashing.HashFile(absOutputPath)
 
 	// If the local hash is the same as the cached one we don't need to
